@@ -3348,3 +3348,315 @@ and (9,9) on the 12×12 periodic unit grid, ρ = 3/4 ≥ √2/2 -/
 example : ∑ a ∈ Finset.range axes12.length, ((axes12.getD a default).dx / 2) ^ 2 ≤ ((3 : ℚ) / 4) ^ 2 := by decide +kernel
 example : ((3/2 : ℚ) + 3/2 + 4 * (3/4)) ^ 2 ≤ cdist2 axes12 [3, 3] [9, 9] := by decide +kernel
 end DV.C01
+
+/-! ### two-sided bound on the located radius (covering bound) -/
+
+
+namespace DV.C01
+open DV
+
+theorem radius_from_volume_ge_three (V ρ : ℝ) (hρ : 0 ≤ ρ) (h : ρ ^ 3 * (Real.pi * 4 / 3) ≤ V) :
+    ∃ r, Gen.radius_from_volume V 3 = .ok r ∧ ρ ≤ r := by
+  refine ⟨(3 * V / (4 * Real.pi)) ^ ((1 : ℝ) / 3), by simp [Gen.radius_from_volume], ?_⟩
+  have hpi := Real.pi_pos
+  have h1 : ρ ^ 3 ≤ 3 * V / (4 * Real.pi) := by
+    rw [le_div_iff₀ (by positivity)]
+    nlinarith
+  calc ρ = (ρ ^ 3) ^ ((1 : ℝ) / 3) := by
+        rw [one_div]
+        exact_mod_cast (Real.pow_rpow_inv_natCast hρ (by norm_num : (3 : ℕ) ≠ 0)).symm
+    _ ≤ (3 * V / (4 * Real.pi)) ^ ((1 : ℝ) / 3) := Real.rpow_le_rpow (by positivity) h1 (by norm_num)
+
+theorem radius_from_volume_ge_two (V ρ : ℝ) (hρ : 0 ≤ ρ) (h : ρ ^ 2 * Real.pi ≤ V) :
+    ∃ r, Gen.radius_from_volume V 2 = .ok r ∧ ρ ≤ r := by
+  refine ⟨Real.sqrt (V / Real.pi), by simp [Gen.radius_from_volume], ?_⟩
+  have hpi := Real.pi_pos
+  have h1 : ρ ^ 2 ≤ V / Real.pi := by rw [le_div_iff₀ hpi]; exact h
+  calc ρ = Real.sqrt (ρ ^ 2) := (Real.sqrt_sq hρ).symm
+    _ ≤ Real.sqrt (V / Real.pi) := Real.sqrt_le_sqrt h1
+
+theorem radius_from_volume_ge_one (V ρ : ℝ) (h : 2 * ρ ≤ V) :
+    ∃ r, Gen.radius_from_volume V 1 = .ok r ∧ ρ ≤ r := by
+  refine ⟨V / 2, by simp [Gen.radius_from_volume], by linarith⟩
+
+end DV.C01
+
+
+namespace DV.C01
+open Finset BigOperators DV.Merge DV.MergeInv DV.Label DV.LabelInv DV.GridGeom DV.Render DV.BallConn DV.WrapDiff DV.C02
+
+/-- folding a lattice index into the box along one axis: the cell `n mod N` has periodic difference equal to the unwrapped
+offset of lattice point `n`, and unwrapping it gives `n` back -/
+theorem axis_fold (a : Axis) (hwf : Axis.WF a) (c ρ : ℚ) (hres : AxisResolved a c ρ) (n : ℤ)
+    (hδ : |a.lo + ((n : ℚ) + 1 / 2) * a.dx - c| < ρ) :
+    let k := (n % (a.n : ℤ)).toNat
+    k < a.n ∧ a.diff c k = a.lo + ((n : ℚ) + 1 / 2) * a.dx - c ∧
+      (k : ℤ) - (if a.periodic then ((a.centre k - c + a.length / 2) / a.length).floor else 0) * (a.n : ℤ) = n := by
+  intro k
+  have hN : (0 : ℤ) < a.n := by exact_mod_cast hwf.n_pos
+  have hdx := hwf.dx_pos
+  have hL := length_pos a hwf
+  have hLn : a.length = a.dx * a.n := rfl
+  have hk0 : 0 ≤ n % (a.n : ℤ) := Int.emod_nonneg _ (ne_of_gt hN)
+  have hk1 : n % (a.n : ℤ) < a.n := Int.emod_lt_of_pos _ hN
+  have hkz : (k : ℤ) = n % (a.n : ℤ) := Int.toNat_of_nonneg hk0
+  have hklt : k < a.n := by
+    have : (k : ℤ) < a.n := by rw [hkz]; exact hk1
+    exact_mod_cast this
+  set q := n / (a.n : ℤ) with hq
+  have hdecomp : n = (k : ℤ) + q * (a.n : ℤ) := by
+    rw [hkz, hq]; have := Int.emod_add_mul_ediv n (a.n : ℤ); linarith
+  have hnq : (n : ℚ) = (k : ℚ) + (q : ℚ) * (a.n : ℚ) := by exact_mod_cast hdecomp
+  have hcen : a.centre k - c = (a.lo + ((n : ℚ) + 1 / 2) * a.dx - c) - (q : ℚ) * a.length := by
+    unfold Axis.centre; rw [hnq, hLn]; ring
+  obtain ⟨hd1, hd2⟩ := abs_lt.mp hδ
+  by_cases hper : a.periodic = true
+  · have hρL : 2 * (ρ + a.dx) ≤ a.length := hres.per hper
+    set δ := a.lo + ((n : ℚ) + 1 / 2) * a.dx - c with hδdef
+    have hw : wrapDiff a.length (a.centre k - c) = δ := by
+      apply wrapDiff_unique a.length (a.centre k - c) δ hL (-q)
+      · rw [hcen]; push_cast; ring
+      · linarith
+      · linarith
+    have hfl : ((a.centre k - c + a.length / 2) / a.length).floor = -q := by
+      have hfl' : ∀ x : ℚ, x.floor = ⌊x⌋ := fun _ => rfl
+      rw [hfl', Int.floor_eq_iff]
+      rw [hcen]
+      constructor
+      · rw [le_div_iff₀ hL]; push_cast; nlinarith
+      · rw [div_lt_iff₀ hL]; push_cast; nlinarith
+    refine ⟨hklt, ?_, ?_⟩
+    · unfold Axis.diff; rw [if_pos hper]; exact hw
+    · rw [if_pos hper, hfl, hdecomp]; ring
+  · have hper' : a.periodic = false := by simpa using hper
+    obtain ⟨hb1, hb2⟩ := hres.box hper'
+    -- 0 ≤ n < N
+    have hn0 : 0 ≤ n := by
+      by_contra hneg
+      have : (n : ℚ) ≤ -1 := by exact_mod_cast (by omega : n ≤ -1)
+      nlinarith
+    have hn1 : n < a.n := by
+      by_contra hge
+      have : ((a.n : ℤ) : ℚ) ≤ n := by exact_mod_cast (by omega : (a.n : ℤ) ≤ n)
+      push_cast at this
+      rw [hLn] at hb2
+      nlinarith
+    have hkn : (k : ℤ) = n := by rw [hkz]; exact Int.emod_eq_of_lt hn0 hn1
+    have hknq : (k : ℚ) = (n : ℚ) := by exact_mod_cast hkn
+    refine ⟨hklt, ?_, ?_⟩
+    · unfold Axis.diff Axis.centre; simp only [hper', Bool.false_eq_true, if_false]; rw [hknq]
+    · simp only [hper', Bool.false_eq_true, if_false]; rw [hkn]; ring
+
+
+theorem valid_of_getD : ∀ (idx shape : List ℕ), idx.length = shape.length →
+    (∀ a, a < shape.length → idx.getD a 0 < shape.getD a 1) → Valid idx shape
+  | [], [], _, _ => trivial
+  | [], _ :: _, h, _ => by simp at h
+  | _ :: _, [], h, _ => by simp at h
+  | i :: is, n :: ns, h, hlt => by
+    refine ⟨by simpa using hlt 0 (by simp), valid_of_getD is ns (by simpa using h) ?_⟩
+    intro a ha
+    simpa using hlt (a + 1) (by simpa using ha)
+
+variable (axes : List Axis) (ctr : List ℚ)
+
+/-- **Every lattice point within `R` of the centre of a resolved droplet is (the unwrapped position of) a covered cell.** -/
+theorem lattice_point_is_covered (h : GridWF axes ctr) (R : ℚ) (hres : FullyResolved axes ctr R) (nn : ℕ → ℤ)
+    (hsum : ∑ a ∈ Finset.range axes.length,
+      ((axes.getD a default).lo + ((nn a : ℚ) + 1 / 2) * (axes.getD a default).dx - ctr.getD a 0) ^ 2 < R ^ 2) :
+    ∃ c, c < numCells (shapeOf axes) ∧ ballMask axes ctr R c = true ∧
+      ∀ a, a < axes.length → latticeIdx axes ctr c a = nn a := by
+  set δ : ℕ → ℚ := fun a => (axes.getD a default).lo + ((nn a : ℚ) + 1 / 2) * (axes.getD a default).dx - ctr.getD a 0 with hδ
+  have hposs := shape_pos axes ctr h
+  -- every component is smaller than R
+  have hcomp : ∀ a, a < axes.length → |δ a| < R := by
+    intro a ha
+    have hR0 : 0 ≤ R := (hres a ha).nonneg
+    have h1 : δ a ^ 2 ≤ ∑ b ∈ Finset.range axes.length, δ b ^ 2 :=
+      Finset.single_le_sum (f := fun b => δ b ^ 2) (fun b _ => sq_nonneg _) (Finset.mem_range.mpr ha)
+    have h2 : δ a ^ 2 < R ^ 2 := lt_of_le_of_lt h1 hsum
+    exact abs_lt_of_sq_lt_sq h2 hR0
+  have hfold : ∀ a, a < axes.length →
+      let ax := axes.getD a default
+      let k := (nn a % (ax.n : ℤ)).toNat
+      k < ax.n ∧ ax.diff (ctr.getD a 0) k = δ a ∧
+        (k : ℤ) - (if ax.periodic then ((ax.centre k - ctr.getD a 0 + ax.length / 2) / ax.length).floor else 0) * (ax.n : ℤ) = nn a :=
+    fun a ha => axis_fold (axes.getD a default) (axis_wf axes ctr h ha) (ctr.getD a 0) R (hres a ha) (nn a) (hcomp a ha)
+  set idx : List ℕ := (List.range axes.length).map fun a => (nn a % ((axes.getD a default).n : ℤ)).toNat with hidx
+  have hidxg : ∀ a, a < axes.length → idx.getD a 0 = (nn a % ((axes.getD a default).n : ℤ)).toNat := by
+    intro a ha
+    rw [hidx, List.getD_eq_getElem?_getD, List.getElem?_map, List.getElem?_range ha]; rfl
+  have hshl : (shapeOf axes).length = axes.length := by unfold shapeOf; simp
+  have hvalid : Valid idx (shapeOf axes) := by
+    apply valid_of_getD
+    · rw [hidx, hshl]; simp
+    · intro a ha
+      rw [hshl] at ha
+      rw [hidxg a ha, shape_getD axes ha]
+      exact (hfold a ha).1
+  set c := flat idx (shapeOf axes) with hc
+  have hclt : c < numCells (shapeOf axes) := flat_lt hvalid
+  have hunf : unflat (shapeOf axes) c = idx := unflat_flat hvalid
+  have hcoord : ∀ a, a < axes.length → coordOf (shapeOf axes) c a = (nn a % ((axes.getD a default).n : ℤ)).toNat := by
+    intro a ha
+    unfold coordOf; rw [hunf, hidxg a ha]
+  have hU : ∀ a, a < axes.length → U axes ctr c a = δ a := by
+    intro a ha
+    rw [U_eq, hcoord a ha]
+    exact (hfold a ha).2.1
+  refine ⟨c, hclt, ?_, ?_⟩
+  · rw [ballMask_iff]
+    refine ⟨hclt, ?_⟩
+    rw [D_eq_sum axes h c, Finset.sum_congr rfl (fun a ha => by rw [hU a (Finset.mem_range.mp ha)])]
+    have : R * R = R ^ 2 := by ring
+    rw [this]; exact hsum
+  · intro a ha
+    unfold latticeIdx wrapCount
+    simp only
+    rw [hcoord a ha]
+    exact (hfold a ha).2.2
+
+
+open DV.Lattice WithLp in
+/-- the covered cells as a set of lattice points (unwrapped around the droplet) -/
+noncomputable def latticeSet (R : ℚ) (d : ℕ) : Finset (Fin d → ℤ) :=
+  ((Finset.range (numCells (shapeOf axes))).filter fun c => ballMask axes ctr R c = true).image
+    fun c => fun a : Fin d => latticeIdx axes ctr c a
+
+open DV.Lattice WithLp in
+theorem norm_sq_eq_sum (d : ℕ) (hd : axes.length = d) (nn : ℕ → ℤ) :
+    ‖(toLp 2 (centre (fun a : Fin d => (((axes.getD a default).lo : ℚ) : ℝ)) (fun a : Fin d => (((axes.getD a default).dx : ℚ) : ℝ))
+        (fun a : Fin d => nn a)) : EuclideanSpace ℝ (Fin d)) - toLp 2 (fun a : Fin d => ((ctr.getD a 0 : ℚ) : ℝ))‖ ^ 2
+      = ((∑ a ∈ Finset.range axes.length,
+          ((axes.getD a default).lo + ((nn a : ℚ) + 1 / 2) * (axes.getD a default).dx - ctr.getD a 0) ^ 2 : ℚ) : ℝ) := by
+  rw [EuclideanSpace.norm_eq, Real.sq_sqrt (Finset.sum_nonneg fun a _ => sq_nonneg _)]
+  rw [hd, ← Fin.sum_univ_eq_sum_range (fun a => ((axes.getD a default).lo + ((nn a : ℚ) + 1 / 2) * (axes.getD a default).dx - ctr.getD a 0) ^ 2) d]
+  push_cast
+  apply Finset.sum_congr rfl
+  intro a _
+  rw [Real.norm_eq_abs, sq_abs]
+  simp only [PiLp.sub_apply, centre]
+
+open DV.Lattice WithLp in
+/-- the lattice set contains EVERY lattice point within `R` of the centre (resolved droplet) -/
+theorem latticeSet_complete (h : GridWF axes ctr) (R : ℚ) (hres : FullyResolved axes ctr R) (d : ℕ) (hd : axes.length = d)
+    (hd0 : 0 < axes.length) (n : Fin d → ℤ)
+    (hn : ‖(toLp 2 (centre (fun a : Fin d => (((axes.getD a default).lo : ℚ) : ℝ)) (fun a : Fin d => (((axes.getD a default).dx : ℚ) : ℝ)) n)
+          : EuclideanSpace ℝ (Fin d)) - toLp 2 (fun a : Fin d => ((ctr.getD a 0 : ℚ) : ℝ))‖ < (R : ℝ)) :
+    n ∈ latticeSet axes ctr R d := by
+  set nn : ℕ → ℤ := fun a => if ha : a < d then n ⟨a, ha⟩ else 0 with hnn
+  have hnfun : (fun a : Fin d => nn a) = n := by
+    funext a; simp [hnn, a.2]
+  have hR0 : (0 : ℝ) ≤ R := by exact_mod_cast (hres 0 hd0).nonneg
+  have hsq : ‖(toLp 2 (centre (fun a : Fin d => (((axes.getD a default).lo : ℚ) : ℝ)) (fun a : Fin d => (((axes.getD a default).dx : ℚ) : ℝ)) n)
+          : EuclideanSpace ℝ (Fin d)) - toLp 2 (fun a : Fin d => ((ctr.getD a 0 : ℚ) : ℝ))‖ ^ 2 < (R : ℝ) ^ 2 :=
+    pow_lt_pow_left₀ hn (norm_nonneg _) (by norm_num)
+  rw [← hnfun, norm_sq_eq_sum axes ctr d hd nn] at hsq
+  have hsum : ∑ a ∈ Finset.range axes.length,
+      ((axes.getD a default).lo + ((nn a : ℚ) + 1 / 2) * (axes.getD a default).dx - ctr.getD a 0) ^ 2 < R ^ 2 := by
+    have : ((R ^ 2 : ℚ) : ℝ) = (R : ℝ) ^ 2 := by push_cast; ring
+    rw [← this] at hsq
+    exact_mod_cast hsq
+  obtain ⟨c, hclt, hcm, hci⟩ := lattice_point_is_covered axes ctr h R hres nn hsum
+  unfold latticeSet
+  apply Finset.mem_image.mpr
+  refine ⟨c, Finset.mem_filter.mpr ⟨Finset.mem_range.mpr hclt, hcm⟩, ?_⟩
+  funext a
+  rw [hci a (by omega)]
+  simp [hnn, a.2]
+
+theorem latticeSet_card (h : GridWF axes ctr) (R : ℚ) (d : ℕ) (hd : axes.length = d) :
+    (latticeSet axes ctr R d).card = ((Finset.range (numCells (shapeOf axes))).filter fun c => ballMask axes ctr R c = true).card := by
+  unfold latticeSet
+  apply Finset.card_image_of_injOn
+  intro c hc c' hc' heq
+  have m1 := (ballMask_iff axes ctr R c).mp (Finset.mem_filter.mp hc).2
+  have m2 := (ballMask_iff axes ctr R c').mp (Finset.mem_filter.mp hc').2
+  apply latticeIdx_inj axes ctr h m1.1 m2.1
+  intro a ha
+  have := congrFun heq ⟨a, by omega⟩
+  simpa using this
+
+
+open DV.Lattice WithLp in
+/-- **Lower bound: the located radius of a resolved droplet is at least `R − ρ`** (ρ ≥ half the cell diagonal): the ball of radius
+`R − ρ` is covered by the boxes of the covered cells (covering bound), and `radius_from_volume` is monotone. -/
+theorem located_radius_ge (h : GridWF axes ctr) (R : ℚ) (hres : FullyResolved axes ctr R) (ρ : ℚ) (hρ : 0 ≤ ρ)
+    (hdiag : ∑ a ∈ Finset.range axes.length, ((axes.getD a default).dx / 2) ^ 2 ≤ ρ ^ 2)
+    (hd : axes.length = 1 ∨ axes.length = 2 ∨ axes.length = 3) :
+    ∃ r : ℝ, Gen.radius_from_volume
+        ((((Finset.range (numCells (shapeOf axes))).filter fun c => ballMask axes ctr R c = true).card : ℝ)
+          * ∏ a ∈ Finset.range axes.length, (((axes.getD a default).dx : ℚ) : ℝ)) axes.length = .ok r ∧
+      (R : ℝ) - ρ ≤ r := by
+  have hd0 : 0 < axes.length := by omega
+  have hρr : (0 : ℝ) ≤ ρ := by exact_mod_cast hρ
+  have hh : ∀ (d : ℕ) (hdd : axes.length = d) (a : Fin d), 0 < (((axes.getD a default).dx : ℚ) : ℝ) := by
+    intro d hdd a
+    have := (axis_wf axes ctr h (k := a) (by omega)).dx_pos
+    exact_mod_cast this
+  have hprod : ∀ (d : ℕ) (hdd : axes.length = d), ∏ a : Fin d, (((axes.getD a default).dx : ℚ) : ℝ)
+      = ∏ a ∈ Finset.range axes.length, (((axes.getD a default).dx : ℚ) : ℝ) := by
+    intro d hdd
+    rw [hdd, ← Fin.prod_univ_eq_prod_range (fun a => (((axes.getD a default).dx : ℚ) : ℝ)) d]
+  -- a radius exists in any case; if R - ρ < 0 there is nothing to show beyond r ≥ 0
+  have hV0 : 0 ≤ ((((Finset.range (numCells (shapeOf axes))).filter fun c => ballMask axes ctr R c = true).card : ℝ)
+      * ∏ a ∈ Finset.range axes.length, (((axes.getD a default).dx : ℚ) : ℝ)) := by
+    apply mul_nonneg (Nat.cast_nonneg _)
+    apply Finset.prod_nonneg
+    intro a ha
+    have := (axis_wf axes ctr h (k := a) (Finset.mem_range.mp ha)).dx_pos
+    exact_mod_cast this.le
+  obtain ⟨V, hV⟩ : ∃ V : ℝ, V = ((((Finset.range (numCells (shapeOf axes))).filter fun c => ballMask axes ctr R c = true).card : ℝ)
+      * ∏ a ∈ Finset.range axes.length, (((axes.getD a default).dx : ℚ) : ℝ)) := ⟨_, rfl⟩
+  rw [← hV] at hV0 ⊢
+  rcases hd with hd | hd | hd
+  · have hhd := halfDiag_le axes 1 hd ρ hρ hdiag
+    rw [hd]
+    by_cases hneg : (R : ℝ) - halfDiag (fun a : Fin 1 => (((axes.getD a default).dx : ℚ) : ℝ)) < 0
+    · obtain ⟨r, hr, hr0⟩ := radius_from_volume_ge_one V 0 (by simpa using hV0)
+      exact ⟨r, hr, by linarith⟩
+    · have hb := card_vol_ge_one (latticeSet axes ctr R 1) _ _ _ (hh 1 hd) R (by linarith)
+        (fun n hn => latticeSet_complete axes ctr h R hres 1 hd hd0 n hn)
+      rw [latticeSet_card axes ctr h R 1 hd, hprod 1 hd, ← hV] at hb
+      obtain ⟨r, hr, hrge⟩ := radius_from_volume_ge_one V _ hb
+      exact ⟨r, hr, by linarith⟩
+  · have hhd := halfDiag_le axes 2 hd ρ hρ hdiag
+    rw [hd]
+    by_cases hneg : (R : ℝ) - halfDiag (fun a : Fin 2 => (((axes.getD a default).dx : ℚ) : ℝ)) < 0
+    · obtain ⟨r, hr, hr0⟩ := radius_from_volume_ge_two V 0 le_rfl (by simpa using hV0)
+      exact ⟨r, hr, by linarith⟩
+    · have hb := card_vol_ge_two (latticeSet axes ctr R 2) _ _ _ (hh 2 hd) R (by linarith)
+        (fun n hn => latticeSet_complete axes ctr h R hres 2 hd hd0 n hn)
+      rw [latticeSet_card axes ctr h R 2 hd, hprod 2 hd, ← hV] at hb
+      obtain ⟨r, hr, hrge⟩ := radius_from_volume_ge_two V _ (by linarith) hb
+      exact ⟨r, hr, by linarith⟩
+  · have hhd := halfDiag_le axes 3 hd ρ hρ hdiag
+    rw [hd]
+    by_cases hneg : (R : ℝ) - halfDiag (fun a : Fin 3 => (((axes.getD a default).dx : ℚ) : ℝ)) < 0
+    · obtain ⟨r, hr, hr0⟩ := radius_from_volume_ge_three V 0 le_rfl (by simpa using hV0)
+      exact ⟨r, hr, by linarith⟩
+    · have hb := card_vol_ge_three (latticeSet axes ctr R 3) _ _ _ (hh 3 hd) R (by linarith)
+        (fun n hn => latticeSet_complete axes ctr h R hres 3 hd hd0 n hn)
+      rw [latticeSet_card axes ctr h R 3 hd, hprod 3 hd, ← hV] at hb
+      obtain ⟨r, hr, hrge⟩ := radius_from_volume_ge_three V _ (by linarith) hb
+      exact ⟨r, hr, by linarith⟩
+
+/-- **The located radius is within half a cell diagonal of the droplet's radius** (two-sided; 1–3 dimensions, resolved droplet):
+together with the half-cell bound on the position this is the accuracy of the initial estimate that refinement (C05) starts from. -/
+theorem located_radius_within (h : GridWF axes ctr) (R : ℚ) (hres : FullyResolved axes ctr R) (ρ : ℚ) (hρ : 0 ≤ ρ)
+    (hdiag : ∑ a ∈ Finset.range axes.length, ((axes.getD a default).dx / 2) ^ 2 ≤ ρ ^ 2)
+    (hd : axes.length = 1 ∨ axes.length = 2 ∨ axes.length = 3) :
+    ∃ r : ℝ, Gen.radius_from_volume
+        ((((Finset.range (numCells (shapeOf axes))).filter fun c => ballMask axes ctr R c = true).card : ℝ)
+          * ∏ a ∈ Finset.range axes.length, (((axes.getD a default).dx : ℚ) : ℝ)) axes.length = .ok r ∧
+      |r - (R : ℝ)| ≤ ρ := by
+  have hd0 : 0 < axes.length := by omega
+  obtain ⟨r1, h1, _, hle⟩ := located_radius_le axes ctr h R (hres 0 hd0).nonneg ρ hρ hdiag hd
+  obtain ⟨r2, h2, hge⟩ := located_radius_ge axes ctr h R hres ρ hρ hdiag hd
+  have : r1 = r2 := by
+    have := h1.symm.trans h2
+    simpa using this
+  subst this
+  exact ⟨r1, h1, abs_le.mpr ⟨by linarith, by linarith⟩⟩
+
+end DV.C01
